@@ -125,6 +125,7 @@ Proof.
   rewrite Ef. rewrite splice_mid by (rewrite ?zlen_app; lia).
   destruct (fits fl (zlen tag)) eqn:F1; cbn [negb andb]; [|reflexivity].
   replace (4 + X + (HS + zlen tag + zlen tag mod 2 - (HS + n + n mod 2))) with (4 + X') by lia.
+  bset (4 + X' <? 0) false.
   destruct (fits fl (4 + X')) eqn:F2; cbn [negb]; [|reflexivity].
   f_equal.
   set (T := tag ++ zeros (zlen tag mod 2)).
@@ -285,7 +286,8 @@ Proof.
   unfold ce_size. cbn [ce_off ce_ds]. rewrite <- Hsz.
   bset (zlen f <? HS + 4 + zlen P + csize fl c) false.
   destruct (struct_ok_inv fl _ Hd) as (_ & _ & Hfit'). cbn [s_chunks] in Hfit'. rewrite LX' in Hfit'.
-  replace (4 + X - csize fl c) with (4 + (zlen P + zlen Q)) by lia. rewrite Hfit'. cbn [negb]. f_equal.
+  replace (4 + X - csize fl c) with (4 + (zlen P + zlen Q)) by lia. bset (4 + (zlen P + zlen Q) <? 0) false.
+  rewrite Hfit'. cbn [negb]. f_equal.
   set (A0 := fl_root fl ++ enc fl (4 + X) ++ name ++ P).
   assert (Ef : f = A0 ++ render_chunk fl c ++ Q).
   { unfold f, iff_render, A0. cbn [s_name s_chunks]. fold X. rewrite Ln, render_mid. fold P Q. rewrite <- !app_assoc. reflexivity. }
